@@ -2130,6 +2130,11 @@ class CatchExceptionDataset(Dataset):
             LOG.info(f'{self.__class__.__name__} filtered {catched_count} of {total_count} examples (catched expections: {types}).')
 
 
+class _FilteredExample:
+    """Placeholder that a prefetch worker returns for a dropped example."""
+    pass
+
+
 class PrefetchDataset(Dataset):
     def __init__(
             self,
@@ -2225,7 +2230,10 @@ class PrefetchDataset(Dataset):
             else:
                 catch_filter_exception = self.catch_filter_exception
 
-            unique_object = object()
+            # A class is pickled by reference, hence the identity check below
+            # also works when the result crosses a process boundary
+            # (backends 'mp' and 'dill_mp').
+            unique_object = _FilteredExample
 
             if with_key:
                 def catcher(key):
